@@ -270,7 +270,7 @@ func genChain(o hreg.Opts, p chainPlan, mutants bool) (out seqOut) {
 		// heal: when the real block processing (no result validation) lets a must-reject corruption through, give the
 		// block the state root it produced and sign it again, so that the validated run ACCEPTS it and the
 		// difference to S is not masked by "invalid state root" (chain.Mutations does the same for its mutants)
-		emitOn := func(preFlat *flat.State, preView common.BeaconState, tag string, sb *chain.SignedBlock, engine string, known *[32]byte, heal bool) {
+		emitOn := func(spec *common.Spec, preFlat *flat.State, preView common.BeaconState, tag string, sb *chain.SignedBlock, engine string, known *[32]byte, heal bool) {
 			tb, err := flatblock.Of(sb.Obj)
 			if err != nil {
 				out.err = err
@@ -295,7 +295,7 @@ func genChain(o hreg.Opts, p chainPlan, mutants bool) (out seqOut) {
 			out.lines = append(out.lines, fmt.Sprintf("blk mode=post tag=%s fv=%x %s", tagOf(tag), fv[:], flatblock.Dump(spec, tb, orc)))
 		}
 		emit := func(tag string, sb *chain.SignedBlock, engine string, known *[32]byte) {
-			emitOn(fs, step.PreBlock, tag, sb, engine, known, false)
+			emitOn(spec, fs, step.PreBlock, tag, sb, engine, known, false)
 		}
 		if !mutants {
 			pr := [32]byte(step.PostRoot)
@@ -345,7 +345,7 @@ func genChain(o hreg.Opts, p chainPlan, mutants bool) (out seqOut) {
 			ms = append(append(ms, ownMs...), bytesMs...)
 			for k := range ms {
 				mu := &ms[k]
-				emitOn(fs, step.PreBlock, mu.Label, mu.Block, engineOf(mu), nil, own[mu.Label])
+				emitOn(spec, fs, step.PreBlock, mu.Label, mu.Block, engineOf(mu), nil, own[mu.Label])
 				if mu.Healed {
 					stat("mutants", "healed-by-chain-library")
 				}
@@ -361,14 +361,18 @@ func genChain(o hreg.Opts, p chainPlan, mutants bool) (out seqOut) {
 		out.lines = append(out.lines, "reset")
 		if mutants {
 			// the same valid block on variants of the pre-state (rules that no block mutation can reach)
-			for _, v := range stateVariants(spec, step, fs, rng) {
-				view, err := v.st.ToView(spec)
+			for _, v := range stateVariants(c, spec, step, fs, rng) {
+				sp, toks := spec, cfgToks
+				if v.spec != nil {
+					sp, toks = v.spec, flat.SpecTokens(v.spec)
+				}
+				view, err := v.st.ToView(sp)
 				if err != nil {
 					out.err = fmt.Errorf("state variant %s: %w", v.label, err)
 					return
 				}
-				out.lines = append(out.lines, "pre "+cfgToks+" "+v.st.String())
-				emitOn(v.st, view, v.label, step.Block, "valid", nil, true)
+				out.lines = append(out.lines, "pre "+toks+" "+v.st.String())
+				emitOn(sp, v.st, view, v.label, step.Block, "valid", nil, true)
 				out.lines = append(out.lines, "reset")
 				stat("mutant_rule_intended", fork+":"+v.rule)
 				stat("mutant_area", "pre-state")
